@@ -316,6 +316,76 @@ class C07(Spec):
         return qs
 
 
+def usage_options(tool_src):
+    """options documented in the tool's own usage() text: (short, long, has_arg)"""
+    import re
+    txt = open(tool_src).read()
+    m = re.search(r'usage\(const char \*error.*?\n}', txt, re.S)
+    body = m.group(0) if m else txt
+    out = []
+    for mm in re.finditer(r'^\s*-(\w), --([\w-]+)(=\S+)?\s', body, re.M):
+        out.append((mm.group(1), mm.group(2), 1 if mm.group(3) else 0))
+    return out
+
+
+def write_opts_header(path, opts):
+    with open(path, 'w') as f:
+        f.write('/* generated on every run from the usage() text of the tool */\n')
+        f.write('struct c20_opt { char shortc; const char *longn; int has_arg; };\n')
+        f.write('static const struct c20_opt c20_opts[] = {\n')
+        for s_, l_, a_ in opts:
+            f.write('\t{ \'%s\', "%s", %d },\n' % (s_, l_, a_))
+        f.write('};\n#define C20_NOPTS %d\n' % len(opts))
+
+
+TOOLV_UNITS = ['tools/jwt-verify.c', 'libjwt/jwt.c', 'libjwt/jwt-memory.c', 'libjwt/base64.c']
+TOOL_MODELS = ['alloc', 'jansson_model', 'env', 'provider_stub', 'getopt_model']
+
+
+class C20(Spec):
+    functions = ['main (tools/jwt-verify.c)', 'process_one', 'print_token_trunc', 'jwt_str_alg', 'jwt_alg_str']
+
+    def queries(self, tier, bld):
+        import os
+        from .build import REPO
+        qs = []
+        # the tool's main() is renamed by the translation pipeline (-Dmain=tool_main), not in /repo
+        tool_gb = bld.goto_unit('tools/jwt-verify.c', extra=['-Dmain=tool_main'], suffix='tool')
+        ns = (1, 2, 3, 255, 256, 257) if tier == 'quick' else (1, 2, 3, 4, 8, 64, 255, 256, 257, 511, 512, 513)
+        for n in ns:
+            for stdin in (0, 1):
+                # stdin route: the tool reads into a BUFSIZ array per line; beyond a few dozen lines the
+                # array encoding runs out of memory, so the wrap-around counts are taken on the argv route
+                if stdin and n > 16:
+                    continue
+                if tier == 'quick' and stdin and n not in (1, 2):
+                    continue
+                d = ['SIDE_EXIT', 'NTOK=%d' % n, 'VF_FREE_NOOP'] + (['STDIN'] if stdin else []) + (['QUIET'] if n % 2 else [])
+                q = Query('C20.exit.n%d.%s' % (n, 'stdin' if stdin else 'argv'), 'tool_verify.c', TOOLV_UNITS, models=TOOL_MODELS,
+                          defines=d, unwind=16, checks='verdict', budget=600,
+                          bounds={'tokens': n, 'route': 'stdin' if stdin else 'argv', 'verdict vectors': 'all 2^%d' % n})
+                q.unwindset = {'tool_main.%d' % k: max(17, n + 2) for k in range(4)}
+                q.unwindset['main.0'] = n + 2
+                q.unit_override = {'tools/jwt-verify.c': tool_gb}
+                qs.append(q)
+        opts = usage_options(os.path.join(REPO, 'tools/jwt-verify.c'))
+        write_opts_header(os.path.join(bld.gen, 'c20_verify_opts.h'), opts)
+        names = ['short', 'short_detached', 'long', 'long_detached']
+        for wi, (sc, ln, ha) in enumerate(opts):
+            for sp in range(4):
+                if not ha and sp in (1, 3):
+                    continue
+                q = Query('C20.opts.verify.%s.%s' % (ln, names[sp]), 'tool_verify.c', TOOLV_UNITS, models=TOOL_MODELS,
+                          defines=['SIDE_OPTS', 'VF_FREE_NOOP', 'WHICH=%d' % wi, 'SPELLING=%d' % sp],
+                          unwind=34, checks='verdict', budget=300,
+                          bounds={'option': '-%s/--%s%s' % (sc, ln, '=ARG' if ha else ''), 'spelling': names[sp]})
+                q.includes = [bld.gen]
+                q.unwindset = {'tool_main.%d' % k: 17 for k in range(4)}
+                q.unit_override = {'tools/jwt-verify.c': tool_gb}
+                qs.append(q)
+        return qs
+
+
 class C18(Spec):
     level = 'other'
     functions = CORE_FUNCS + BUILDER_FUNCS
@@ -340,4 +410,4 @@ class C18(Spec):
         return qs
 
 
-PROPS.update({'C18': C18(), 'C07': C07(), 'C16': C16(), 'C15': C15(), 'C12': C12(), 'C10': C10(), 'C11': C11(), 'C13': C13(), 'C19': C19(), 'C09': C09(), 'C04': C04(), 'C02': C02(), 'C03': C03(), 'C06': C06(), 'C14': C14()})
+PROPS.update({'C20': C20(), 'C18': C18(), 'C07': C07(), 'C16': C16(), 'C15': C15(), 'C12': C12(), 'C10': C10(), 'C11': C11(), 'C13': C13(), 'C19': C19(), 'C09': C09(), 'C04': C04(), 'C02': C02(), 'C03': C03(), 'C06': C06(), 'C14': C14()})
